@@ -2,4 +2,5 @@ pub mod c01;
 pub mod c04;
 pub mod c11;
 pub mod cli;
+pub mod cli2;
 pub mod place;
